@@ -76,6 +76,28 @@ PROVED = {
          "points as a library on generated good and systematically broken declarations and reading the tables back from the generated token "
          "streams (both front-ends compared), (b) enums compiled with the real macros and probed at run time.",
          "syn/quote/proc-macro2, rustc and macro hygiene are not modelled; duplicate variant names / reserved names are left to rustc (model mirrors the macro). "),
+ "C01": ("PARTIAL (reader half proved). Theorem C01_reader_roundtrip_partial: for every strict configuration and every conforming encoded document "
+         "(Model/Encode.v rtree: arbitrary nesting depth, arbitrary payload bytes that decode to the value, every size-field width 1-8, any subset of "
+         "masters of unknown size) the reader yields exactly the document's items — Start/End pairs, values, offsets — then None; proved by nested "
+         "induction on the tree with the lazily emitted Ends as an invariant over the reader's stack; transferred to the buffered machine for every "
+         "capacity and chunking. Restricted to declared paths without global placeholders. The writer half (the writer's output is such an encoding) "
+         "is tied by correspondence (write-then-read of random conformant documents incl. boundary payload lengths, widths, Full, unknown sizes, raw tags).", ""),
+ "C07": ("Theorems: the closing rule (count_ended = the largest k such that the k innermost open masters have unknown size and the outermost of them is "
+         "ended by the element; nothing closes below a known-size master); C07_items_partial / C07_encoding_choices_irrelevant_partial: every conforming "
+         "document reads as its items with each unknown-size master's End right before the next element outside of it or at the end of input, so two "
+         "encodings of the same tags (any known/unknown choice, any widths) read as the same tag sequence. Restricted to paths without global "
+         "placeholders; global elements after unknown-size masters are covered by the correspondence groups.", ""),
+ "C05": ("Theorems: C05_no_panic — for every configuration whose specification passes the derive check (implied_ok), every byte input and every "
+         "next()/try_recover() sequence, no call of the abstract reader panics (model Panic outcomes = every unwrap/expect/index/arithmetic site of the "
+         "code path); transferred to the buffered machine for every capacity and calm script; decoders total; an exhausted reader stays exhausted "
+         "(C05_fused); a source I/O error surfaces as an error; try_recover never moves backwards and fails only with end of input. PARTIAL: "
+         "termination within the fuel bound (no hang) and panics outside the modelled sites are covered by the adversarial correspondence runs under "
+         "catch_unwind with hang detection.", ""),
+ "C08": ("PARTIAL. Theorems on the algebraic core: rolling up a well-nested item sequence into a Full and unrolling it gives Start, the flattened "
+         "children, End (C08_unroll_rollup_partial); with nothing inside buffered itself the original flat sequence is recovered exactly; a balanced body "
+         "is skipped whatever ids it contains (same-id nesting). That buffer_master feeds roll_up exactly the items of the flat parse (the simulation "
+         "between buffered and unbuffered runs) is covered by correspondence groups with and without buffered sets; EOF inside a buffered master with "
+         "emit_master_end_when_eof(false) is known finding D18.", ""),
  "C20": ("PARTIAL + known finding D15. Theorem C20_first_read_partial: if the source delivers the whole input (<= 64 KiB) with its first read the "
          "async iterator yields exactly the abstract reader's run (= the blocking iterator by C04_refines), ending once. C20_refuted exhibits a schedule "
          "(first read of 1 byte) on which the faithful model differs from the blocking run: the property as stated is violated by nonblocking.rs "
